@@ -115,6 +115,7 @@ pub fn run_oracle(name: &str, seed: u64, n: usize, tier: &str) -> util::OracleRe
         "interp_runtime_limits" => interp_oracles::oracle_runtime_limits(&mut rng, n, tier),
         "interp_restrict_limits" => interp_oracles::oracle_restrict_limits(&mut rng, n, tier),
         "interp_costmodel_ops" => interp_oracles::oracle_costmodel_ops(&mut rng, n, tier),
+        "interp_budget_ops" => interp_oracles::oracle_budget_ops(&mut rng, n, tier),
         "interp_guards" => interp_oracles::oracle_guards(&mut rng, n, tier),
         "interp_sha256tree" => interp_oracles::oracle_sha256tree(&mut rng, n, tier),
         s if s.starts_with("interp_") => interp_oracles::oracle(&s[7..], &mut rng, n, tier),
